@@ -96,7 +96,11 @@ class Monitor(object):
                                                                          "samples": [list(x) for x in self.srv_samples if x[1] == r.id_number and x[0] == r.node]})
                 elif valid_time(m[0][3]):
                     self.hub.flags.add("service_checked")
-                    if r.service_end_date - r.service_start_date != m[0][3] or r.service_time != m[0][3]:
+                    # (floats: the engine computes end = start + sample; the DIFFERENCE end - start may be off by an ulp
+                    #  when the start is not a binary fraction, e.g. downstream of a PS node)
+                    st, en, sm = float(r.service_start_date), float(r.service_end_date), float(m[0][3])
+                    tol = 1e-9 * max(1.0, abs(en))
+                    if abs(en - st - sm) > tol or abs(float(r.service_time) - sm) > tol:
                         self.violate("service_duration_ne_sample", {"id": r.id_number, "node": r.node, "sample": m[0][3],
                                                                     "start": r.service_start_date, "end": r.service_end_date, "service_time": r.service_time})
 
